@@ -21,6 +21,20 @@ MUTANTS = [
     ("cpu-write-select-swapped", L + "machine/raw/signals.rs", "        if self.mrgws() {\n            self.selected_register_b()\n        } else {\n            self.selected_register_a()\n        }", "        if self.mrgws() {\n            self.selected_register_a()\n        } else {\n            self.selected_register_b()\n        }", ["C01"]),
     ("cpu-ldsp-skips-flags", L + "machine/raw/mod.rs", "        if let Some(FlagWrite) = self.pending_flag_write.take() {", "        let ldsp = self.pending_register_write == Some(RegisterNumber::R5);\n        if let Some(FlagWrite) = self.pending_flag_write.take().filter(|_| !ldsp) {", ["C01"]),
     ("cpu-ram-read-at-ef-is-io", L + "machine/bus.rs", "        if addr <= 0xEF {\n            self.ram[addr]\n        }", "        if addr < 0xEF {\n            self.ram[addr]\n        }", ["C01", "C10"]),
+    # ---- micro-sequencer (C09)
+    ("seq-am4-am3-swapped", L + "machine/raw/signals.rs", "            | (self.am4() as usize) << 1\n            | (self.am3() as usize)", "            | (self.am3() as usize) << 1\n            | (self.am4() as usize)", ["C09", "C01"]),
+    ("seq-call-last-word-zeroed", L + "machine/microprogram_ram_content.rs", "0b0011011110101100011111000010), // 001001001", "0b0000000000000000000000000000), // 001001001", ["C09", "C01"]),
+    ("seq-unknown-opcode-4c-completes", L + "machine/microprogram_ram_content.rs", "0b0000000110000000000000011000), // 010000011", "0b1101000110000000000000011000), // 010000011", ["C09"]),
+    ("seq-mul-shift-word-loops", L + "machine/microprogram_ram_content.rs", "0b0000001010001100110010000001), // 101101000", "0b0000010000001100110010000001), // 101101000", ["C09", "C01"]),
+    # ---- supervision / halts (C05)
+    ("sup-band16-lower-edge", L + "machine/raw/mod.rs", "Stacksize::_16 => sp <= 0xD0 || sp >= 0xDF,", "Stacksize::_16 => sp < 0xD0 || sp >= 0xDF,", ["C05"]),
+    ("sup-band48-upper-edge", L + "machine/raw/mod.rs", "Stacksize::_48 => sp <= 0xB0 || sp >= 0xBF,", "Stacksize::_48 => sp <= 0xB0 || sp >= 0xBE,", ["C05"]),
+    ("sup-pc-limit-strict", L + "machine/raw/mod.rs", "            pc <= *n\n", "            pc < *n || *n == 0\n", ["C05"]),
+    ("sup-pc-checked-only-on-pc-write", L + "machine/raw/mod.rs", "            if !self.is_program_counter_valid() {", "            if register == RegisterNumber::R5 && !self.is_program_counter_valid() {", ["C05"]),
+    ("sup-halted-consumes-wait", L + "machine/raw/mod.rs", "        if self.state != State::Running {\n            trace!(\"Ignoring clock. Machine halted.\");\n            return;\n        } else if let Some(MemoryWait) = self.pending_wait_for_memory.take() {", "        if self.pending_wait_for_memory.take().is_some() {\n            return;\n        } else if self.state != State::Running {\n            trace!(\"Ignoring clock. Machine halted.\");\n            return;\n        } else if let Some(MemoryWait) = self.pending_wait_for_memory.take() {", ["C05"]),
+    ("sup-continue-leaves-error-stop", L + "machine/raw/mod.rs", "        if self.state == State::Stopped {\n            self.state = State::Running", "        if self.state != State::Running {\n            self.state = State::Running", ["C05"]),
+    ("sup-stop-overrides-error", L + "machine/raw/mod.rs", "                if machine.state != State::ErrorStopped {\n                    machine.state = State::Stopped;\n                }", "                machine.state = State::Stopped;", ["C05"]),
+    ("sup-opcode-0-is-regular-stop", L + "machine/raw/mod.rs", "                warn!(\"Read 0x00 instruction! Error halting\");\n                machine.state = State::ErrorStopped;", "                warn!(\"Read 0x00 instruction! Error halting\");\n                machine.state = State::Stopped;", ["C05", "C01"]),
     # ---- cycles (C15)
     ("cyc-wait-also-for-io", L + "machine/raw/mod.rs", "            if *register_out_a <= 0xEF {\n                trace!(\"Generating artificial wait signal\");\n                machine.pending_wait_for_memory = Some(MemoryWait);\n            }\n        } else {\n            machine.last_bus_read = 0;", "            if *register_out_a <= 0xFB {\n                trace!(\"Generating artificial wait signal\");\n                machine.pending_wait_for_memory = Some(MemoryWait);\n            }\n        } else {\n            machine.last_bus_read = 0;", ["C15"]),
     ("cyc-no-wait-reading-0x80", L + "machine/raw/mod.rs", "            if *register_out_a <= 0xEF {\n                trace!(\"Generating artificial wait signal\");\n                machine.pending_wait_for_memory = Some(MemoryWait);\n            }\n        } else {\n            machine.last_bus_read = 0;", "            if *register_out_a <= 0xEF && *register_out_a != 0x80 {\n                trace!(\"Generating artificial wait signal\");\n                machine.pending_wait_for_memory = Some(MemoryWait);\n            }\n        } else {\n            machine.last_bus_read = 0;", ["C15"]),
